@@ -70,7 +70,7 @@ Definition tagfilter (literal : bytes) : res bool :=
       tf_names literal rest i tagfilter_blacklist.
 
 (* ---- tagfilter_block ---- *)
-Definition lt_ent : bytes := [x26; x6c; x74; x3b].   (* b"&lt;" *)
+Definition tf_lt : bytes := [x26; x6c; x74; x3b].   (* b"&lt;" *)
 
 (* inner `while i < size && input[i] != b'<' { i += 1 }` on the suffix input[org..]:
    returns (input[org..i], input[i..]) *)
@@ -95,7 +95,7 @@ Fixpoint tfb_loop (fuel : nat) (out s : bytes) : res bytes :=
       | [] => Ok out1                                (* if i >= size { break } *)
       | _ :: rest' =>                                (* input[i] is the LT byte; rest = input[i..] *)
         do hit <- tagfilter rest;
-        tfb_loop fuel' (out1 ++ (if hit then lt_ent else [x3c])) rest'
+        tfb_loop fuel' (out1 ++ (if hit then tf_lt else [x3c])) rest'
       end
     end
   end.
@@ -117,5 +117,5 @@ Definition html_inline_payload (escape_ unsafe_ tagfilter_ : bool) (literal : by
     do hit <- (if tagfilter_ then tagfilter literal else Ok false);   (* tagfilter && tagfilter(literal) *)
     if hit then
       do tl <- slice_from "html.rs:render_html_inline:literal[1..]" literal 1;
-      Ok (lt_ent ++ tl)
+      Ok (tf_lt ++ tl)
     else Ok literal.
